@@ -185,3 +185,16 @@ pub(crate) fn replay_check(ty: Type, nil: bool, op: impl Fn() -> ComparisonOpExp
     assert!(replay_end_to_end(ty, nil, op(), Some(value)) == want, "REPLAY on real code: wrong answer for a present value");
     assert!(replay_end_to_end(ty, nil, op(), None) == want_absent, "REPLAY on real code: wrong answer for an absent value");
 }
+
+/// `Regex::new` makes kani-compiler crash (rvalue.rs:1009, regex_automata's
+/// `Result<Core, BuildError>` discriminant) as soon as it is statically reachable, which
+/// it is from every parser entry point.  Obligations that run the parser on inputs
+/// without regex literals replace it by this function: reaching it is a FAILED check,
+/// so the stub can never make an obligation pass.
+pub(crate) fn regex_new__must_not_be_reached(
+    _pattern: &str,
+    _format: crate::rhs_types::RegexFormat,
+    _settings: &crate::ast::parse::ParserSettings,
+) -> Result<crate::rhs_types::Regex, crate::rhs_types::RegexError> {
+    panic!("the regex compiler was reached")
+}
